@@ -4,22 +4,34 @@ header, btrt, pasp; plus TrackFragmentDecodeTimeBox.__setattr__ (the 32 -> 64 bi
 import z3
 from pyvc.vals import *          # noqa: F401,F403
 from pyvc.contract import Contract, Loop, Lemma, Group
-from pyvc.models.trace import Trace, FieldWriterModel, FieldReaderModel
+from pyvc.models.trace import Trace
 
 MP4 = 'dashlive/mpeg/mp4.py'
+FIO_W, FIO_R = 'dashlive/utils/fio/field_writer.py', 'dashlive/utils/fio/field_reader.py'
 U32, U64 = 2 ** 32, 2 ** 64
 
 
 def world():
     w = {'__bases__': {}}
     for cls in ('MovieFragmentHeaderBox', 'MovieExtendsHeaderBox', 'TrackExtendsBox', 'TrackFragmentDecodeTimeBox',
-                'TrackFragmentHeaderBox', 'TrackFragmentRunBox'):
+                'TrackFragmentHeaderBox', 'TrackFragmentRunBox', 'TrackEncryptionBox', 'MediaHeaderBox', 'EventMessageBox', 'ContentProtectionSpecificBox'):
         w['__bases__'][cls] = ['FullBox']
+    w['ISO_EPOCH'] = DT(z3.IntVal(ISO_EPOCH_US))
+    for nm in ('creation_s', 'modification_s', 'default_kid', 'payload', 'system_id', 'kid0', 'kid1', 'kid2'):
+        w[nm] = z3.Int(nm)
+    def bytes_value(p):
+        if isinstance(p, bytes):
+            return z3.IntVal(int.from_bytes(p, 'big'))
+        if isinstance(p, Obj) and 'data' in p.f:
+            p = p.f['data']
+        if hasattr(p, 'u'):
+            return zint(p.u)
+        from pyvc.engine import PyRaise
+        raise PyRaise('TypeError')          # not bytes: the clause is not evaluable on this result
+    w['bytes_value'] = bytes_value
     w['__bases__']['FullBox'] = ['Mp4Atom']
-    w['__ctors__'] = {
-        'FieldWriter': lambda eng, a, kw: FieldWriterModel(a[0], a[1]),
-        'FieldReader': lambda eng, a, kw: FieldReaderModel(a[1], a[2]),
-    }
+    # FieldWriter / FieldReader are the repository's own classes: constructed and run as real code (inlined)
+    w['__inline_ctors__'] = {'FieldWriter': FIO_W, 'FieldReader': FIO_R}
     w['consumed'] = lambda t: z3.BoolVal(t.cursor == len(t.fields) and t.partial == 0)
     w['nbytes'] = lambda t: t.total()
     for nm in ('moof_position', 'moof_size', 'mdat_header_size', 'base_data_offset', 'senc_position', 'sample0_offset', 'offset0'):
@@ -35,7 +47,8 @@ def box_contract(cls, fields, requires, version_values=(0, 1), extra_env=None, r
     names = ['version', 'flags'] + [f for f, _ in fields]
 
     def env(w):
-        o = Obj(cls, {'version': z3.Int('version'), 'flags': z3.Int('flags')})
+        o = Obj(cls, {'version': z3.Int('version'), 'flags': z3.Int('flags'),
+                      'options': Obj('Options', {'debug': False, 'log': Opaque('log')})})
         for f, srt in fields:
             o.f[f] = Opt(z3.Bool(f + '_none'), z3.Int(f)) if srt == 'opt' else z3.Int(f)
         if extra_env:
@@ -47,7 +60,9 @@ def box_contract(cls, fields, requires, version_values=(0, 1), extra_env=None, r
         t.cursor, t.reading = 0, True
         parent = Obj('Mp4Atom', {'tfhd': Opaque('tfhd')})
         return {'clz': Opaque('class:' + cls), 'src': t, 'parent': parent, 'self': env_after['self'], 'dest': t,
-                'kwargs': {'options': Obj('Options', {'debug': False, 'log': Opaque('log')}), 'initial_data': {}}}
+                'kwargs': {'options': Obj('Options', {'debug': False, 'log': Opaque('log')}),
+                           # what Mp4Atom.parse (box header, not under contract) hands on: the box spans the trace
+                           'initial_data': {'position': 0, 'size': t.total()}}}
     rt = roundtrip or ' and '.join(f"result['{f}'] == old(self.{f})" for f in names)
     ens = [('roundtrip', rt), ('consumed', 'consumed(dest)')]
     if size:
@@ -174,12 +189,128 @@ TRUN.modifies = ['self._first_field_pos']
 TRUN.mod_types = {}
 TRUN.witness_terms = lambda w: (lambda ev: {k: ev(z3.Int(k)) for k in ('version', 'flags', 'data_offset', 'first_sample_flags')})
 
+# --- tenc: 3-byte is_encrypted, iv_size, 16-byte default key id (Binary: the writer unwraps .data)
+def tenc_env(w, o):
+    from pyvc.models.trace import Packed
+    o.f.update(is_encrypted=z3.Int('is_encrypted'), iv_size=z3.Int('iv_size'),
+               default_kid=Obj('Binary', {'data': Packed(16, z3.Int('default_kid'))}))
+
+
+TENC = box_contract(
+    'TrackEncryptionBox', [], [('is_encrypted_24bit', '0 <= self.is_encrypted and self.is_encrypted < 16777216'),
+                               ('iv_size_8bit', '0 <= self.iv_size and self.iv_size < 256'),
+                               ('kid_128bit', f'0 <= default_kid and default_kid < {2 ** 128}')],
+    version_values=(0,), extra_env=tenc_env, size='24',
+    roundtrip=("result['version'] == old(self.version) and result['flags'] == old(self.flags) and "
+               "result['is_encrypted'] == old(self.is_encrypted) and result['iv_size'] == old(self.iv_size) and "
+               "bytes_value(result['default_kid']) == default_kid"),
+)
+TENC.canaries = ["result['iv_size'] == 0"]
+TENC.witness_terms = lambda w: (lambda ev: {k: ev(z3.Int(k)) for k in ('version', 'flags', 'is_encrypted', 'iv_size', 'default_kid')})
+
+# --- mdhd: creation / modification time as seconds since 1904 (32 or 64 bit), timescale, duration, packed language
+ISO_EPOCH_US = -2082844800 * 10 ** 6
+
+
+def mdhd_env(w, o):
+    o.f.update(creation_time=DT(ISO_EPOCH_US + 10 ** 6 * z3.Int('creation_s')),
+               modification_time=DT(ISO_EPOCH_US + 10 ** 6 * z3.Int('modification_s')),
+               language='und')
+
+
+def fits_v(f):
+    return (f'fits_{f}', f'0 <= {f} and {f} < ({U64} if self.version == 1 else {U32})')
+
+
+MDHD = box_contract(
+    'MediaHeaderBox', [('timescale', 'int'), ('duration', 'int')],
+    [u32('timescale'), fits_v('self.duration'), fits_v('creation_s'), fits_v('modification_s')],
+    extra_env=mdhd_env, size='36 if self.version == 1 else 24',
+    roundtrip=("result['version'] == old(self.version) and result['flags'] == old(self.flags) and "
+               "result['timescale'] == old(self.timescale) and result['duration'] == old(self.duration) and "
+               "result['creation_time'] == old(self.creation_time) and "
+               "result['modification_time'] == old(self.modification_time) and result['language'] == 'und'"),
+)
+MDHD.witness_terms = lambda w: (lambda ev: {k: ev(z3.Int(k)) for k in ('version', 'flags', 'timescale', 'duration', 'creation_s', 'modification_s')})
+
+# --- emsg (C14: what an inband event carries): two null-terminated strings (fixed representative texts - the string
+# codec runs on concrete bytes), timescale, presentation time (delta: 32 bit in v0, absolute 64 bit in v1), duration,
+# id and an optional payload
+EMSG_SCHEME, EMSG_VALUE = 'urn:scte:scte35:2014:xml+bin', '5'
+EMSG_INTS = ('timescale', 'presentation_time_delta', 'presentation_time', 'event_duration', 'event_id')
+
+
+def emsg_contract(payload):
+    def env(w, o):
+        from pyvc.models.trace import Packed
+        o.f.update(scheme_id_uri=EMSG_SCHEME, value=EMSG_VALUE,
+                   data=Packed(7, z3.Int('payload')) if payload else None)
+    strings = len(EMSG_SCHEME) + 1 + len(EMSG_VALUE) + 1
+    c = box_contract(
+        'EventMessageBox', [(f, 'int') for f in EMSG_INTS],
+        [u32('timescale'), u32('presentation_time_delta'), u32('event_duration'), u32('event_id'),
+         ('u64_presentation_time', f'0 <= self.presentation_time and self.presentation_time < {U64}'),
+         ('payload_7_bytes', f'0 <= payload and payload < {256 ** 7}')],
+        extra_env=env, size=f'({4 + 20 + strings} if self.version == 1 else {4 + 16 + strings}) + {7 if payload else 0}',
+        roundtrip=("result['version'] == old(self.version) and result['flags'] == old(self.flags) and "
+                   "result['timescale'] == old(self.timescale) and result['event_duration'] == old(self.event_duration) and "
+                   "result['event_id'] == old(self.event_id) and "
+                   "(result['presentation_time'] == old(self.presentation_time) if self.version == 1 else "
+                   "result['presentation_time_delta'] == old(self.presentation_time_delta)) and "
+                   f"result['scheme_id_uri'] == '{EMSG_SCHEME}' and result['value'] == '{EMSG_VALUE}' and "
+                   + ("bytes_value(result['data']) == payload" if payload else "is_unset(result['data'])")),
+    )
+    c.variant = f'EventMessageBox{"+payload" if payload else ""}'
+    c.props = ['C04', 'C14']
+    c.canaries = ["result['event_id'] == 0"]
+    c.witness_terms = lambda w: (lambda ev: {k: ev(z3.Int(k)) for k in ('version', 'flags', 'payload') + EMSG_INTS})
+    return c
+
+
+EMSG = [emsg_contract(False), emsg_contract(True)]
+
+# --- pssh (C10/C11 ingredient): system id, version-1 key id list, opaque data
+def pssh_contract(nkids, with_data):
+    def env(w, o):
+        from pyvc.models.trace import Packed
+        B = lambda name, n: Obj('Binary', {'data': Packed(n, z3.Int(name))})
+        o.f.update(system_id=B('system_id', 16), key_ids=PyList([B(f'kid{k}', 16) for k in range(nkids)]),
+                   data=B('payload', 7) if with_data else None)
+    kid_terms = ''.join(f" and bytes_value(result['key_ids'][{k}]) == kid{k}" for k in range(nkids))
+    c = box_contract(
+        'ContentProtectionSpecificBox', [],
+        [(f'b128_{n}', f'0 <= {n} and {n} < {2 ** 128}') for n in ['system_id'] + [f'kid{k}' for k in range(nkids)]] +
+        [('payload_7_bytes', f'0 <= payload and payload < {256 ** 7}')],
+        extra_env=env,
+        size=f'4 + 16 + (4 + 16 * {nkids} if self.version == 1 else 0) + 4 + {7 if with_data else 0}',
+        roundtrip=("result['version'] == old(self.version) and result['flags'] == old(self.flags) and "
+                   "bytes_value(result['system_id']) == system_id and "
+                   f"length(result['key_ids']) == ({nkids} if self.version == 1 else 0)"
+                   + (f" and (True if self.version == 0 else (True{kid_terms}))" if nkids else '') + " and "
+                   + ("bytes_value(result['data']) == payload" if with_data else "is_unset(result['data'])")),
+    )
+    c.variant = f'ContentProtectionSpecificBox+{nkids}kids{"+data" if with_data else ""}'
+    c.props = ['C04', 'C11']
+    c.canaries = ["result['version'] == 0"]
+    c.witness_terms = lambda w: (lambda ev: {k: ev(z3.Int(k)) for k in ['version', 'flags', 'system_id', 'payload'] + [f'kid{k}' for k in range(nkids)]})
+    return c
+
+
+PSSH = [pssh_contract(0, False), pssh_contract(1, True), pssh_contract(2, True), pssh_contract(3, False)]
+
 # inline helpers reached through self.encode_box_fields(dest)
 INLINE = [Contract(key=f'{MP4}:{cls}.encode_box_fields', props=[], inline=True)
           for cls in ('MovieFragmentHeaderBox', 'MovieExtendsHeaderBox', 'TrackExtendsBox', 'TrackFragmentDecodeTimeBox',
-                      'TrackFragmentHeaderBox', 'TrackFragmentRunBox')] + \
+                      'TrackFragmentHeaderBox', 'TrackFragmentRunBox', 'TrackEncryptionBox', 'MediaHeaderBox', 'EventMessageBox', 'ContentProtectionSpecificBox')] + \
          [Contract(key=f'{MP4}:FullBox.parse', props=[], inline=True),
-          Contract(key=f'{MP4}:TrackFragmentRunBox.output_box_fields', props=[], inline=True)]
+          Contract(key=f'{MP4}:TrackFragmentRunBox.output_box_fields', props=[], inline=True),
+          Contract(key='dashlive/utils/binary.py:Binary.__len__', props=[], inline=True),
+          Contract(key='dashlive/utils/date_time.py:to_iso_epoch', props=[], inline=True),
+          Contract(key='dashlive/utils/date_time.py:from_iso_epoch', props=[], inline=True),
+          Contract(key=f'{FIO_W}:FieldWriter.write', props=[], inline=True),
+          Contract(key=f'{FIO_R}:FieldReader.read', props=[], inline=True),
+          Contract(key=f'{FIO_R}:FieldReader.get', props=[], inline=True),
+          Contract(key=f'{FIO_R}:FieldReader.skip', props=[], inline=True)]
 
 
 # ----------------------------------------------------------------------------- tfdt: 32 -> 64 bit switch (C02)
@@ -298,16 +429,18 @@ FIND_FIRST = Contract(key=f'{MP4}:SampleAuxiliaryInformationOffsetsBox.find_firs
 
 GROUP = Group(
     name='mp4', world=world,
-    contracts=[MFHD, MEHD, TREX, TFDT, TFHD, TRUN, BTRT, PASP, TFDT_SETATTR, TRUN_POST_ENCODE] + SAIO + [FIND_FIRST] + INLINE,
+    contracts=[MFHD, MEHD, TREX, TFDT, TFHD, TRUN, TENC, MDHD] + EMSG + PSSH + [BTRT, PASP, TFDT_SETATTR, TRUN_POST_ENCODE] + SAIO + [FIND_FIRST] + INLINE,
     assumptions=[
-        'C04: the repository helpers FieldWriter.write / FieldReader.read (dashlive/utils/fio) and struct.pack / unpack are '
-        'modelled (pyvc/models/trace.py) for the codes B H I Q i q, 3I and fixed-size byte fields; they are not themselves verified',
+        'C04: FieldWriter.__init__/write and FieldReader.__init__/read/get/skip (dashlive/utils/fio) are analysed as real code '
+        '(inlined at every call, for the format codes the boxes under contract use); struct.pack / struct.unpack (stdlib) and '
+        'the byte stream are modelled (pyvc/models/trace.py) for the codes B H I Q i q; a value read byte-wise is the '
+        'big-endian byte decomposition of the value written',
         'C04: Mp4Atom.parse (box header) is skipped through its `initial_data` shortcut; the proof is about the FullBox '
         'version/flags header and the class fields only',
         'C04: field values are assumed legal for the box version/flags (the `requires` of each variant): that is the '
         'statement\'s quantifier',
     ],
-    trusted=['pyvc/models/trace.py (byte trace, FieldWriter/FieldReader/struct models)'],
+    trusted=['pyvc/models/trace.py (byte trace, struct.pack/unpack models, byte decomposition)'],
     not_covered=['all list-bearing boxes (trun, saiz, saio, senc, sidx, pssh, stsd, ...), sample entries, descriptors, '
                  'the box header (size / uuid / 64-bit size), lazy loading, JSON round trip, tree edits (append/insert/remove '
                  'and update_size), Mp4Atom.load and Mp4Atom.encode size back-patching'],
